@@ -292,12 +292,11 @@ fn parse_sequence_header(obu_data: &[u8], header_size: usize) -> Option<Av1Confi
     // seq_profile: 3 bits
     let seq_profile = reader.read_bits(3)? as u8;
 
-    // INV-204: Sequence profile must be valid (0-3)
-    assert_invariant!(
-        seq_profile <= 3,
-        "AV1 sequence profile must be valid (0-3)",
-        "codec::av1::parse_sequence_header"
-    );
+    // The profile comes straight from the bitstream: values above 3 are not a
+    // usable sequence header (reported to the caller, not asserted)
+    if seq_profile > 3 {
+        return None;
+    }
 
     // still_picture: 1 bit
     let _still_picture = reader.read_bit()?;
